@@ -140,6 +140,34 @@ fn bbox<T: Sx, B: Bz<T>>(axis: usize, three: bool) {
         }
     }
 }
+/// Non-interference: the per-axis functions read their own axis only. The curve is run twice, with the same
+/// coordinates on `axis` and unrelated symbols on the other axes; the results must be the same terms. Together with
+/// the per-axis scenarios (other axes = 0) this covers every axis of every curve type in the quick tier: a macro
+/// invocation wired to the wrong field makes the second run depend on symbols the first never saw.
+/// `which`: 0 = *_inflection(s), 1 = min_*, 2 = max_*.
+fn axis_only<T: Sx, B: Bz<T>>(axis: usize, which: usize) {
+    set_ite_mode(true);
+    let p1 = crate::scen::c14::sym_pts::<T>("p", B::DEG + 1, B::DIM);
+    let p2: Vec<Vec<T>> = p1.iter().enumerate().map(|(i, q)| (0..B::DIM).map(|j| if j == axis { q[j] } else { var::<T>(&format!("o{}{}", i, j)) }).collect()).collect();
+    let run = |p: &[Vec<T>]| -> Vec<T> { let c = B::of(p); match which { 0 => c.inflections(axis), 1 => vec![c.min_t(axis)], _ => vec![c.max_t(axis)] } };
+    let r1 = run(&p1);
+    // the second run must follow the first one's path: a branch on a condition the first run never asked is
+    // interference already (and would otherwise fork 46 x 46 paths)
+    freeze_decisions(true);
+    let r2 = catch(|| run(&p2));
+    freeze_decisions(false);
+    match r2 {
+        Ok(r2) => {
+            goal("same number of results whatever the other axes hold", lit(r1.len() == r2.len()));
+            for i in 0..r1.len().min(r2.len()) {
+                goal(&format!("result {} does not depend on the other axes", i), eq(r1[i], r2[i]));
+            }
+        }
+        // (named like the result goal so that the native replay, which has no notion of frozen decisions, evaluates
+        // the comparison itself on the counterexample)
+        Err(_) => goal("result 0 does not depend on the other axes", lit(false)),
+    }
+}
 /// Cut for one triangle inequality |u + v| <= |u| + |v| between the radicals `rs = sqrt(rad_s)`, `ru = sqrt(u.u)`,
 /// `rv = sqrt(v.v)` (all built by the harness from `u`, `v`): Lagrange's identity and the sum-of-squares fact are
 /// solver-checked lemmas (polynomial), then the inequality is decided with u.u, v.v, u.v and the radicand of the sum
@@ -249,6 +277,10 @@ pub fn register(v: &mut Vec<Scenario>) {
                     scen!(v, "C15", 1, format!("c15/{}_{}_direct/{}", if max { "max" } else { "min" }, an, stringify!($B)), ["min_*", "max_*", "*_inflections", "evaluate"], extremum::<$B<T_>>(axis, max, false, true));
                 }
             }
+            // (needed only where the full per-axis scenarios are thorough-only: the other cubic axes)
+            if heavy == 1 { for which in 0..3usize {
+                scen!(v, "C15", 0, format!("c15/axis_only/{}/{}/{}", stringify!($B), an, ["inflections", "min", "max"][which]), ["*_inflection(s)", "min_*", "max_*"], axis_only::<$B<T_>>(axis, which));
+            } }
             scen!(v, "C15", heavier, format!("c15/bounds_pair/{}/{}", stringify!($B), an), ["*_bounds"], bounds_pair::<$B<T_>>(axis));
             if axis < 2 { scen!(v, "C15", heavier, format!("c15/aabr/{}/{}", stringify!($B), an), ["aabr", "*_bounds", "evaluate"], bbox::<$B<T_>>(axis, false)); }
             if $dim == 3 { scen!(v, "C15", heavier, format!("c15/aabb/{}/{}", stringify!($B), an), ["aabb", "*_bounds", "evaluate"], bbox::<$B<T_>>(axis, true)); }
